@@ -254,7 +254,7 @@ fn check_run_fresh(t: &mut Tape, ctx: &Ctx) -> Outcome {
     h.note(&format!("enter {:?}   <- compared with a fresh interpreter holding the listing", cmd));
     crate::runner::note_case(&h.script);
     // the history may have left TRON on only through its own statements: none do
-    let mut o = h.opts(20_000);
+    let mut o = h.opts(4000);
     let end_h = h.term.line(&cmd, &mut o);
     let ev_h = h.term.take();
     let mut probes_h = String::new();
@@ -263,7 +263,7 @@ fn check_run_fresh(t: &mut Tape, ctx: &Ctx) -> Outcome {
         probes_h.push_str(&flat(&h.term.take()));
     }
     let mut f = Term::new();
-    let mut of = h.opts(20_000);
+    let mut of = h.opts(4000);
     for l in &lines {
         f.enter_raw(l);
         f.run(&mut of);
